@@ -365,6 +365,30 @@ func VH_C19_FieldTypes() {
 	vStepLimit(0, "")
 }
 
+// ---------- fields reached through several levels of embedding ----------
+
+type vhEmbBad3 struct {
+	X string `@Nope`
+	Y string `@A`
+}
+type vhEmbBad2 struct{ vhEmbBad3 }
+type vhEmbBad1 struct{ vhEmbBad2 }
+type vhEmbBad0 struct {
+	vhEmbBad1
+	Tail string `@C?`
+}
+
+// VH_C19_Embedded: every tagged field of a struct embedded three levels deep
+// is read with its own tag: the valid grammar builds, the one whose first
+// innermost field names an unknown token type is rejected.
+func VH_C19_Embedded() {
+	_, err := Build[vgEmb0](Lexer(&vhStreamDef{}))
+	vAssert(err == nil, "C19: a grammar that follows the tag syntax (fields of a struct embedded three levels deep) does not build")
+	_, err = Build[vhEmbBad0](Lexer(&vhStreamDef{}))
+	vAssert(err != nil, "C19: a tag that references an unknown token type (field of a struct embedded three levels deep) is accepted")
+	vReach("built")
+}
+
 // ---------- tag text at the character level ----------
 
 // VH_C19_TagBytes: the tag of one field ends in up to vhTagBytes arbitrary
